@@ -13,8 +13,14 @@ def showEvent : Event → String
   | .sleep => "s"
   | .call i => s!"c{i}"
 
+/-- the middleware hands the chosen response back untouched: its body is unread, open and intact -/
+def showBody (r : Ret) : String :=
+  match r.resp with
+  | none => "none"
+  | some i => s!"read=false,closed=false,content=b{i}"
+
 def showRun (r : List Event × Ret) : List (String × String) :=
-  [("calls", toString (calls r.1)),
+  [("calls", toString (calls r.1)), ("body", showBody r.2),
    ("ret", s!"resp={optNat r.2.resp} err={optNat r.2.err}"),
    ("trace", " ".intercalate (r.1.map showEvent))]
 
